@@ -21,6 +21,14 @@ def digest(b):
     return '%d:%s' % (len(b), bytes(b[-12:]).hex() or '-')
 
 
+def chunks(buf):
+    """A wrapper's buffer as a list of byte chunks, whatever container the code under test keeps it in (the
+    pinned code keeps a list of chunks; a single bytes-like buffer reads as one chunk)."""
+    if isinstance(buf, (bytes, bytearray, memoryview)):
+        return [bytes(buf)] if len(buf) else []
+    return [bytes(b) for b in buf]
+
+
 def b01(v):
     return '1' if v else '0'
 
@@ -100,8 +108,9 @@ class FakeSocket:
     def recv(self, n):
         self._live()
         r = self.io.recv
-        if r == 'x':
-            raise ConnectionResetError(errno.ECONNRESET, 'scripted reset')
+        if r.startswith('x'):
+            # 'x' = reset; 'x<errno>' = that errno (OSError picks the subclass Python would raise for it)
+            raise OSError(int(r[1:]) if len(r) > 1 else errno.ECONNRESET, 'scripted error')
         if r == 'a':
             raise BlockingIOError(errno.EAGAIN, 'scripted eagain')
         k = max(int(r[1:]), 1)
@@ -118,10 +127,10 @@ class FakeSocket:
     def send(self, b):
         self._live()
         r = self.io.send
-        if self.env.saw_shut and r != 'x':
+        if self.env.saw_shut and not r.startswith('x'):
             r = 'p'
-        if r == 'x':
-            raise ConnectionResetError(errno.ECONNRESET, 'scripted reset')
+        if r.startswith('x'):
+            raise OSError(int(r[1:]) if len(r) > 1 else errno.ECONNRESET, 'scripted error')
         if r == 'p':
             raise BrokenPipeError(errno.EPIPE, 'scripted epipe')
         if r == 'a':
@@ -445,8 +454,9 @@ class RealTunnel:
         k = 0
         while k < min(nframes, len(src.outbuf)):
             (_a, _b, _chan, cmd, _n) = struct.unpack('!ccHHH', src.outbuf[k][:8])
-            if cmd == self.ssnet.CMD_TCP_CONNECT:
-                break                      # CONNECTs are delivered one by one (they need a scripted connect result)
+            if cmd == self.ssnet.CMD_TCP_CONNECT and not (ready_flows == 'auto' and end == 's'):
+                break                      # outside a pass in the environment as it is, CONNECTs are delivered one by
+                                           # one (they need a scripted connect result); inside one the connect succeeds
             k += 1
         data = b''.join(src.outbuf[:k])
         del src.outbuf[:k]
@@ -480,30 +490,48 @@ class RealTunnel:
         wready = list(socks) + ([mux.wfile] if auto else [])
         self.ready = (([mux.rfile] if data else []) + rsocks, wready, [])
         calls = []
-        wrapped = []
-        for i, f in enumerate(self.flows):
-            p = f.cproxy if end == 'c' else f.sproxy
-            if p is not None and p in hl:
-                orig = p.callback
+        Proxy = self.ssnet.Proxy
+        orig_cb = Proxy.callback
 
-                def logged(sock, _i=i, _orig=orig, _io=(iov if (auto or i in ready_flows) else QUIET)):
-                    calls.append((_i, _io.text()))
-                    return _orig(sock)
-                p.callback = logged
-                wrapped.append(p)
+        def logged(p, sock):
+            for i, f in enumerate(self.flows):
+                if (f.cproxy if end == 'c' else f.sproxy) is p:
+                    calls.append((i, (iov if (auto or i in ready_flows) else QUIET).text()))
+                    break
+            return orig_cb(p, sock)
+        Proxy.callback = logged
+        hooked = False
+        if auto and end == 's':
+            # a CONNECT handled inside the pass: the destination socket new_channel opens belongs to that flow, and the
+            # handler it appends is that flow's server handler
+            real_gp = mux.got_packet
+
+            def gp(chan, cmd, pdata):
+                if cmd != self.ssnet.CMD_TCP_CONNECT:
+                    return real_gp(chan, cmd, pdata)
+                cand = [f for f in self.flows if f.chan == chan and not f.s_ever]
+                self.pending_dst_flow = cand[0] if cand else None
+                self.pending_conn_io = iov
+                n0 = len(self.shandlers)
+                try:
+                    return real_gp(chan, cmd, pdata)
+                finally:
+                    if len(self.shandlers) > n0 and cand:
+                        cand[0].sproxy = self.shandlers[-1]
+                        cand[0].s_ever = True
+                    self.pending_dst_flow = None
+            mux.got_packet = gp
+            hooked = True
         order = [i for h in hl for i, f in enumerate(self.flows) if h is (f.cproxy if end == 'c' else f.sproxy)]
         try:
             self._guard('client' if end == 'c' else 'server', lambda: self.ssnet.runonce(hl, mux))
         finally:
-            for p in wrapped:
-                try:
-                    del p.callback
-                except AttributeError:
-                    pass
+            Proxy.callback = orig_cb
+            if hooked:
+                del mux.got_packet
             self.ready = ([], [], [])
             mux.rfile.data = b''
-        p = orig = logged = None
-        wrapped = None
+        p = None
         self._reap()
         return k, order, calls
 
@@ -516,7 +544,7 @@ class RealTunnel:
             if p is None or p not in hl:
                 continue
             sw, mw = (p.wrap1, p.wrap2) if sock_first else (p.wrap2, p.wrap1)
-            ok = (sw.connect_to is None and not b''.join(sw.buf) and not b''.join(mw.buf) and
+            ok = (sw.connect_to is None and not b''.join(chunks(sw.buf)) and not b''.join(chunks(mw.buf)) and
                   (sw.shut_read or (not env.pending and not env.eof_in)) and
                   (not sw.shut_read or mw.shut_write) and (not mw.shut_read or sw.shut_write) and
                   (not sw.shut_write or mw.shut_read) and (not mw.shut_write or sw.shut_read))
@@ -535,7 +563,7 @@ class RealTunnel:
                 if p is None or p not in hl:
                     continue
                 sw, mw = (p.wrap1, p.wrap2) if sock_first else (p.wrap2, p.wrap1)
-                ok = (sw.connect_to is None and not b''.join(sw.buf) and not b''.join(mw.buf) and
+                ok = (sw.connect_to is None and not b''.join(chunks(sw.buf)) and not b''.join(chunks(mw.buf)) and
                       (sw.shut_read or (not env.pending and not env.eof_in)) and
                       (not sw.shut_read or mw.shut_write) and (not mw.shut_read or sw.shut_write) and
                       (not sw.shut_write or mw.shut_read) and (not mw.shut_write or sw.shut_read))
@@ -585,8 +613,8 @@ class RealTunnel:
             return 'none'
         sw, mw = (p.wrap1, p.wrap2) if sock_first else (p.wrap2, p.wrap1)
         return 'sw(%s;r%sw%sc%sx%s)mw(%d;%s;r%sw%s)ok%s' % (
-            self._bufs(sw.buf), b01(sw.shut_read), b01(sw.shut_write), b01(sw.connect_to is not None), b01(sw.exc),
-            mw.channel, self._bufs(mw.buf), b01(mw.shut_read), b01(mw.shut_write), b01(p.ok))
+            self._bufs(chunks(sw.buf)), b01(sw.shut_read), b01(sw.shut_write), b01(sw.connect_to is not None), b01(sw.exc),
+            mw.channel, self._bufs(chunks(mw.buf)), b01(mw.shut_read), b01(mw.shut_write), b01(p.ok))
 
     # ---- the termination measure of Spec/Measure.lean, counted on the real objects (same weights)
     def _q_mu(self, mux):
@@ -600,9 +628,9 @@ class RealTunnel:
         if p is None or p not in hl:
             return 0
         sw, mw = (p.wrap1, p.wrap2) if sock_first else (p.wrap2, p.wrap1)
-        s_mu = (6 * sum(len(b) for b in sw.buf) + len(sw.buf) + (0 if sw.shut_read else 1) + (0 if sw.shut_write else 1)
+        s_mu = (6 * sum(len(b) for b in chunks(sw.buf)) + len(chunks(sw.buf)) + (0 if sw.shut_read else 1) + (0 if sw.shut_write else 1)
                 + (1 if sw.connect_to is not None else 0) + (0 if sw.exc else 1))
-        w_mu = 2 * sum(len(b) for b in mw.buf) + len(mw.buf) + (0 if mw.shut_read else 3) + (0 if mw.shut_write else 3)
+        w_mu = 2 * sum(len(b) for b in chunks(mw.buf)) + len(chunks(mw.buf)) + (0 if mw.shut_read else 3) + (0 if mw.shut_write else 3)
         return 1 + s_mu + w_mu + (1 if p.ok else 0)
 
     def mu(self):
@@ -693,7 +721,7 @@ class Script:
             extra = ' ' + t.pre(end, i)
             line = 'pre %s %d' % (end, i)
         elif k == 'deliver':
-            _, end, conn = st
+            _, end, conn = st[:3]          # (a fourth element marks a delivery made by the drain itself)
             t.deliver(end, conn)
             line = 'deliver %s %s' % (end, conn)
         elif k == 'rm':
